@@ -207,7 +207,7 @@ def run(repo, rep):
         n += 1
         lb = None
         try:
-            fm = form(_fold_len(ml, defs))
+            fm = form(_fold_len(ml, defs, m))
             lb = _lower_bound(fm)
         except (NotLinear, TypeError, AttributeError):
             lb = None
@@ -540,7 +540,7 @@ def _contradicts_test(path, test):
     return all('isinstance(%s, %s)' % (x, c) in neg for c in classes)
 
 
-def _fold_len(node, defs):
+def _fold_len(node, defs, module=None):
     """replace len('<const>') by its value so that constant lower bounds are visible"""
     import copy
 
@@ -557,6 +557,13 @@ def _fold_len(node, defs):
                     and n.id not in names_in(defs[n.id]):
                 depth[0] += 1
                 r = self.visit(copy.deepcopy(defs[n.id]))
+                depth[0] -= 1
+                return r
+            # a module-level constant (an upper-case name bound once at module level): its defining expression
+            if isinstance(n.ctx, ast.Load) and n.id not in defs and module is not None and n.id.isupper() and depth[0] < 6 \
+                    and len(module.assigns.get(n.id, ())) == 1:
+                depth[0] += 1
+                r = self.visit(copy.deepcopy(module.assigns[n.id][0]))
                 depth[0] -= 1
                 return r
             return n
